@@ -23,6 +23,7 @@ func (rr *SIG) Sign(k crypto.Signer, m *Msg) ([]byte, error) {
 
 	rr.Hdr = RR_Header{Name: ".", Rrtype: TypeSIG, Class: ClassANY, Ttl: 0}
 	rr.OrigTtl, rr.TypeCovered, rr.Labels = 0, 0, 0
+	rr.Signature = "" // what an earlier use left here must not be packed and hashed as part of the RDATA
 
 	// PackBuffer packs into buf only if it holds the uncompressed message plus
 	// one octet, even when the message is compressed afterwards.
